@@ -768,124 +768,273 @@ Proof.
   - right. apply IH; exact Hl.
 Qed.
 
-Definition sub_inv (w : world) (m : machine) : Prop :=
-  (forall d, lookup (loc w m) PCas d <> None -> lookup (rem w) PCas d <> None) /\
-  (forall d, In d (wmemo w m Wrapped) -> lookup (rem w) PCas d <> None).
 
-Lemma guard_sub_inv w m : local_sub_remote w m = true -> wmemo w m Wrapped = [] -> sub_inv w m.
+(* [same_rs w w']: the remote and the stored-memos are untouched.  [ext w w']: the remote's blobs only
+   grow, and every digest newly remembered as stored is in the remote. *)
+Definition same_rs (w w' : world) : Prop := rem w' = rem w /\ wstored w' = wstored w.
+
+Definition ext (w w' : world) : Prop :=
+  (forall d, lookup (rem w) PCas d <> None -> lookup (rem w') PCas d <> None) /\
+  (forall m d, In d (wstored w' m Wrapped) -> In d (wstored w m Wrapped) \/ lookup (rem w') PCas d <> None).
+
+Definition stored_sound (w : world) (m : machine) : Prop :=
+  forall d, In d (wstored w m Wrapped) -> lookup (rem w) PCas d <> None.
+
+Lemma stored_in_remote_sound w m : stored_in_remote w m = true <-> stored_sound w m.
 Proof.
-  intros Hg Hm. split.
-  - intros d Hd. destruct (lookup (loc w m) PCas d) as [b|] eqn:E; [|congruence].
-    apply lookup_In in E. unfold local_sub_remote in Hg. rewrite forallb_forall in Hg.
-    specialize (Hg _ E). unfold cas_entry_mirrored in Hg. simpl in Hg.
-    destruct (lookup (rem w) PCas d); [discriminate | discriminate].
-  - rewrite Hm. intros d [].
+  unfold stored_in_remote, stored_sound. rewrite forallb_forall.
+  split; intros Hs d Hd; specialize (Hs d Hd); destruct (lookup (rem w) PCas d); simpl in *; congruence.
 Qed.
 
-Lemma w_exists_spec w m p k :
-  locA (snd (w_exists w m p k)) = locA w /\ locB (snd (w_exists w m p k)) = locB w /\
-  rem (snd (w_exists w m p k)) = rem w /\ wmemo (snd (w_exists w m p k)) = wmemo w /\
-  (fst (w_exists w m p k) = RTrue -> lookup (loc w m) p k <> None \/ lookup (rem w) p k <> None).
+Lemma same_rs_refl w : same_rs w w.
+Proof. split; reflexivity. Qed.
+
+Lemma same_rs_trans a b c : same_rs a b -> same_rs b c -> same_rs a c.
+Proof. intros [A1 A2] [B1 B2]. split; congruence. Qed.
+
+Lemma same_rs_ext w w' : same_rs w w' -> ext w w'.
 Proof.
-  unfold w_exists. destruct (lookup (loc w m) p k) as [b|] eqn:El; cbn [is_some].
-  - cbn [fst snd]. repeat split; auto. intros _. left; discriminate.
-  - unfold r_head, next_rf. destruct (hd FNone (rfl w)); cbn -[lookup]; repeat split; auto; try discriminate.
-    destruct (lookup (rem w) p k); cbn [is_some]; [intros _; right; discriminate | discriminate].
+  intros [Hr Hs]. split.
+  - intros d Hd. rewrite Hr. exact Hd.
+  - intros m d Hd. rewrite Hs in Hd. left; exact Hd.
 Qed.
 
+Lemma ext_refl w : ext w w.
+Proof. apply same_rs_ext, same_rs_refl. Qed.
+
+Lemma ext_trans a b c : ext a b -> ext b c -> ext a c.
+Proof.
+  intros [A1 A2] [B1 B2]. split.
+  - intros d Hd. apply B1, A1, Hd.
+  - intros m d Hd. destruct (B2 m d Hd) as [Hb|Hc]; [|right; exact Hc].
+    destruct (A2 m d Hb) as [Ha|Hr]; [left; exact Ha | right; apply B1, Hr].
+Qed.
+
+Lemma ext_sound w w' m : ext w w' -> stored_sound w m -> stored_sound w' m.
+Proof.
+  intros [E1 E2] Hs d Hd. destruct (E2 m d Hd) as [Hin|Hr]; [apply E1, Hs, Hin | exact Hr].
+Qed.
+
+Lemma ext_add_wmemo w w1 m md d : ext w w1 -> ext w (add_wmemo w1 m md d).
+Proof. intros [A B]. split; [exact A | exact B]. Qed.
+
+Lemma ext_add_wstored w w1 m md d :
+  ext w w1 -> (md = Wrapped -> lookup (rem w1) PCas d <> None) -> ext w (add_wstored w1 m md d).
+Proof.
+  intros [Hm Hs] Hd. split.
+  - intros d' H. cbn [rem add_wstored]. apply Hm, H.
+  - intros m' d'. cbn [wstored add_wstored rem]. destruct md; cbn [mode_eqb].
+    + rewrite andb_false_r. apply Hs.
+    + rewrite andb_true_r. destruct (machine_eqb m' m).
+      * intros [<-|H]; [right; apply Hd; reflexivity | apply Hs; exact H].
+      * apply Hs.
+Qed.
+
+(* ---- the primitives that leave the remote and the stored-memos alone *)
+Lemma r_head_same_rs w p k : same_rs w (snd (r_head w p k)).
+Proof. unfold r_head, next_rf. destruct (hd FNone (rfl w)); split; reflexivity. Qed.
+
+Lemma r_get_same_rs w p k : same_rs w (snd (r_get w p k)).
+Proof. unfold r_get, next_rf. destruct (hd FNone (rfl w)); split; reflexivity. Qed.
+
+Lemma fs_set_same_rs w m p k b : same_rs w (snd (fs_set w m p k b)).
+Proof. unfold fs_set, next_lf. destruct (hd LOk (lfl w)); destruct m; split; reflexivity. Qed.
+
+Lemma w_get_same_rs w m p k : same_rs w (snd (w_get w m p k)).
+Proof.
+  unfold w_get. destruct (lookup (loc w m) p k) as [b0|]; [apply same_rs_refl|].
+  pose proof (r_get_same_rs w p k) as H1. destruct (r_get w p k) as [r w1]. cbn [snd] in H1.
+  destruct r; try exact H1.
+  pose proof (fs_set_same_rs w1 m p k b) as H2. destruct (fs_set w1 m p k b) as [r2 w2]. cbn [snd] in H2.
+  destruct r2; cbn [snd]; exact (same_rs_trans _ _ _ H1 H2).
+Qed.
+
+Lemma w_exists_same_rs w m p k : same_rs w (snd (w_exists w m p k)).
+Proof.
+  unfold w_exists. destruct (is_some (lookup (loc w m) p k)); [apply same_rs_refl | apply r_head_same_rs].
+Qed.
+
+Lemma w_exists_all_same_rs w m p k : same_rs w (snd (w_exists_all w m p k)).
+Proof.
+  unfold w_exists_all. destruct (is_some (lookup (loc w m) p k)); [apply r_head_same_rs | apply same_rs_refl].
+Qed.
+
+(* ExistsEverywhere answers true only for a key the remote holds *)
+Lemma w_exists_all_true w m p k : fst (w_exists_all w m p k) = RTrue -> lookup (rem w) p k <> None.
+Proof.
+  unfold w_exists_all. destruct (is_some (lookup (loc w m) p k)); [|discriminate].
+  unfold r_head, next_rf. destruct (hd FNone (rfl w)); cbn -[lookup]; try discriminate.
+  destruct (lookup (rem w) p k); cbn [is_some]; [intros _; discriminate | discriminate].
+Qed.
+
+Lemma b_get_same_rs w m md p k : same_rs w (snd (b_get w m md p k)).
+Proof. destruct md; [apply same_rs_refl | apply w_get_same_rs]. Qed.
+
+Lemma b_exists_same_rs w m md p k : same_rs w (snd (b_exists w m md p k)).
+Proof. destruct md; [apply same_rs_refl | apply w_exists_same_rs]. Qed.
+
+Lemma cas_exists_same_rs w m md d : same_rs w (snd (cas_exists w m md d)).
+Proof.
+  unfold cas_exists. destruct (str_in d (wmemo w m md)); [apply same_rs_refl|].
+  pose proof (b_exists_same_rs w m md PCas d) as [H1 H2].
+  destruct (b_exists w m md PCas d) as [r w1]. cbn [snd] in *.
+  destruct r; split; assumption.
+Qed.
+
+(* ---- Set: the stored-memos are untouched, the remote keeps what it has and, when Set returns ok, holds the entry *)
 Lemma w_set_spec w m p k b :
-  wmemo (snd (w_set w m p k b)) = wmemo w /\
-  (fst (w_set w m p k b) = ROk ->
-   loc (snd (w_set w m p k b)) m = upd (loc w m) p k b /\ rem (snd (w_set w m p k b)) = upd (rem w) p k b).
+  wstored (snd (w_set w m p k b)) = wstored w /\
+  (rem (snd (w_set w m p k b)) = rem w \/ rem (snd (w_set w m p k b)) = upd (rem w) p k b) /\
+  (fst (w_set w m p k b) = ROk -> rem (snd (w_set w m p k b)) = upd (rem w) p k b).
 Proof.
   unfold w_set, next_lf, next_rf. cbn -[upd lookup null].
   destruct (hd LOk (lfl w)); destruct (hd FNone (rfl w)); destruct (null b); destruct m;
-    cbn -[upd lookup]; (split; [reflexivity|]); try discriminate;
-    intros _; split; reflexivity.
+    cbn -[upd lookup]; (split; [reflexivity|]); (split; [auto|]); try discriminate; intros _; reflexivity.
+Qed.
+
+Lemma upd_keeps m p k b p' k' : lookup m p' k' <> None -> lookup (upd m p k b) p' k' <> None.
+Proof. intro H. rewrite lookup_upd. destruct (pk_eqb p' k' (p, k)); [discriminate | exact H]. Qed.
+
+Lemma b_set_spec w m md p k b :
+  wstored (snd (b_set w m md p k b)) = wstored w /\
+  (forall p' k', lookup (rem w) p' k' <> None -> lookup (rem (snd (b_set w m md p k b))) p' k' <> None) /\
+  (fst (b_set w m md p k b) = ROk -> md = Wrapped -> lookup (rem (snd (b_set w m md p k b))) p k = Some b).
+Proof.
+  destruct md; cbn [b_set].
+  - destruct (fs_set_same_rs w m p k b) as [Hr Hs]. split; [exact Hs|]. split.
+    + intros p' k' H. rewrite Hr. exact H.
+    + intros _ Hmd. discriminate.
+  - destruct (w_set_spec w m p k b) as (Hs & Hr & Hok). split; [exact Hs|]. split.
+    + intros p' k' H. destruct Hr as [-> | ->]; [exact H | apply upd_keeps, H].
+    + intros E _. rewrite (Hok E). apply lookup_upd_same.
+Qed.
+
+Lemma b_set_ext w m md p k b : ext w (snd (b_set w m md p k b)).
+Proof.
+  destruct (b_set_spec w m md p k b) as (Hs & Hm & _). split.
+  - intros d Hd. apply Hm, Hd.
+  - intros m' d Hd. rewrite Hs in Hd. left; exact Hd.
+Qed.
+
+(* ---- caching.Cas *)
+Lemma cas_stored_spec w m md d :
+  ext w (snd (cas_stored w m md d)) /\
+  (fst (cas_stored w m md d) = true -> md = Wrapped ->
+   In d (wstored w m Wrapped) \/ lookup (rem w) PCas d <> None).
+Proof.
+  unfold cas_stored. destruct (str_in d (wstored w m md)) eqn:Em.
+  - cbn [fst snd]. split; [apply ext_refl|]. intros _ ->. left. apply str_in_spec; exact Em.
+  - destruct md.
+    + pose proof (cas_exists_same_rs w m Local d) as HS.
+      destruct (cas_exists w m Local d) as [r w1]. cbn [snd] in HS. apply same_rs_ext in HS.
+      destruct r; cbn [fst snd]; (split; [|intros _ Hmd; discriminate]); try exact HS.
+      apply ext_add_wstored; [exact HS | intro Hmd; discriminate].
+    + pose proof (w_exists_all_same_rs w m PCas d) as HS. pose proof (w_exists_all_true w m PCas d) as HT.
+      destruct (w_exists_all w m PCas d) as [r w1]. cbn [fst snd] in HS, HT.
+      assert (Hrem : rem w1 = rem w) by (destruct HS; assumption). apply same_rs_ext in HS.
+      destruct r; cbn [fst snd]; (split; [|intros E _; try discriminate]); try exact HS.
+      * apply ext_add_wstored; [exact HS | intros _; rewrite Hrem; apply HT; reflexivity].
+      * right. apply HT; reflexivity.
+Qed.
+
+Lemma cas_write_spec w m md d b :
+  ext w (snd (cas_write w m md d b)) /\
+  (fst (cas_write w m md d b) = ROk -> md = Wrapped -> stored_sound w m ->
+   lookup (rem (snd (cas_write w m md d b))) PCas d <> None).
+Proof.
+  unfold cas_write. pose proof (cas_stored_spec w m md d) as [E1 T1].
+  destruct (cas_stored w m md d) as [s w1]. cbn [fst snd] in E1, T1. destruct s.
+  - cbn [fst snd]. split; [exact E1|]. intros _ Hmd Hs.
+    destruct E1 as [Em _]. destruct (T1 eq_refl Hmd) as [Hin|Hr]; apply Em; [apply Hs, Hin | exact Hr].
+  - pose proof (b_set_ext w1 m md PCas d b) as E2. pose proof (b_set_spec w1 m md PCas d b) as (_ & _ & Hok).
+    destruct (b_set w1 m md PCas d b) as [r2 w2]. cbn [fst snd] in E2, Hok.
+    pose proof (ext_trans _ _ _ E1 E2) as E12.
+    destruct r2; cbn [fst snd]; (split; [|intros E Hmd _; try discriminate]); try exact E12.
+    + apply ext_add_wstored; [apply ext_add_wmemo; exact E12|].
+      intro Hmd. cbn [rem add_wmemo]. rewrite (Hok eq_refl Hmd). discriminate.
+    + cbn [rem add_wstored add_wmemo]. rewrite (Hok eq_refl Hmd). discriminate.
+Qed.
+
+(* ---- every op but a delete keeps "remembered as stored => in the remote", for the memos of both machines *)
+Lemma reset_ext w m : ext w (reset_memo w m).
+Proof.
+  split.
+  - intros d Hd. exact Hd.
+  - intros m' d. cbn [wstored reset_memo]. destruct (machine_eqb m' m); [intros [] | intro Hd; left; exact Hd].
+Qed.
+
+Lemma do_op_ext w o : is_delete o = false -> ext w (snd (do_op w o)).
+Proof.
+  destruct o as [m md a | m]; [|intros _; apply reset_ext].
+  destruct a as [p k | p k b | p k | p k | d b | d]; cbn [is_delete do_op]; intro Hd; try discriminate.
+  - apply same_rs_ext, b_get_same_rs.
+  - apply b_set_ext.
+  - apply same_rs_ext, b_exists_same_rs.
+  - apply cas_write_spec.
+  - apply same_rs_ext, cas_exists_same_rs.
+Qed.
+
+Lemma run_ops_ext ops : forall w,
+  forallb (fun o => negb (is_delete o)) ops = true -> ext w (snd (run_ops w ops)).
+Proof.
+  induction ops as [|o ops IH]; intros w Hnd; cbn [run_ops].
+  - apply ext_refl.
+  - cbn [forallb] in Hnd. apply andb_true_iff in Hnd as [Ho Hr]. apply negb_true_iff in Ho.
+    pose proof (do_op_ext w o Ho) as E1. destruct (do_op w o) as [x w1]. cbn [snd] in E1.
+    specialize (IH w1 Hr). destruct (run_ops w1 ops) as [xs w2]. cbn [snd] in *.
+    exact (ext_trans _ _ _ E1 IH).
+Qed.
+
+(* the guard of no_dangling is an invariant of delete-free histories (grog deletes nothing during a build) *)
+Theorem stored_in_remote_invariant ops w m :
+  forallb (fun o => negb (is_delete o)) ops = true ->
+  stored_in_remote w m = true -> stored_in_remote (snd (run_ops w ops)) m = true.
+Proof.
+  intros Hnd Hs. apply stored_in_remote_sound. apply stored_in_remote_sound in Hs.
+  exact (ext_sound _ _ m (run_ops_ext ops w Hnd) Hs).
 Qed.
 
 Lemma machine_eqb_refl m : machine_eqb m m = true.
 Proof. destruct m; reflexivity. Qed.
 
-Lemma add_wmemo_spec w m d :
-  wmemo (add_wmemo w m Wrapped d) m Wrapped = d :: wmemo w m Wrapped /\
-  loc (add_wmemo w m Wrapped d) m = loc w m /\ rem (add_wmemo w m Wrapped d) = rem w.
-Proof. cbn [wmemo add_wmemo]. rewrite machine_eqb_refl. destruct m; repeat split; reflexivity. Qed.
-
-Lemma cas_write_ok w m d b w' :
-  sub_inv w m -> cas_write w m Wrapped d b = (ROk, w') ->
-  sub_inv w' m /\ lookup (rem w') PCas d <> None /\
-  (forall d', lookup (rem w) PCas d' <> None -> lookup (rem w') PCas d' <> None).
-Proof.
-  intros [S1 S2] Hc. unfold cas_write, cas_exists in Hc.
-  destruct (str_in d (wmemo w m Wrapped)) eqn:Em.
-  - inversion Hc; subst w'. apply str_in_spec in Em. repeat split; auto.
-  - cbn [b_exists b_set] in Hc.
-    pose proof (w_exists_spec w m PCas d) as (EA & EB & ER & EM & ET).
-    destruct (w_exists w m PCas d) as [r w1]. cbn [fst snd] in *.
-    assert (Eloc : loc w1 m = loc w m) by (destruct m; simpl; congruence).
-    assert (Hset : forall w2 r2, w_set w1 m PCas d b = (r2, w2) ->
-                   (match r2 with ROk => (ROk, add_wmemo w2 m Wrapped d) | o => (o, w2) end) = (ROk, w') ->
-                   sub_inv w' m /\ lookup (rem w') PCas d <> None /\
-                   (forall d', lookup (rem w) PCas d' <> None -> lookup (rem w') PCas d' <> None)).
-    { intros w2 r2 Es Hres. pose proof (w_set_spec w1 m PCas d b) as [WM WS]. rewrite Es in WM, WS.
-      cbn [fst snd] in *. destruct r2; try discriminate. inversion Hres; subst w'.
-      destruct (WS eq_refl) as [WL WR].
-      destruct (add_wmemo_spec w2 m d) as (AM & AL & AR).
-      assert (Hmono : forall d', lookup (rem w) PCas d' <> None -> lookup (rem (add_wmemo w2 m Wrapped d)) PCas d' <> None).
-      { intros d' Hd. rewrite AR, WR, lookup_upd, ER. destruct (pk_eqb PCas d' (PCas, d)); [discriminate | exact Hd]. }
-      assert (Hd : lookup (rem (add_wmemo w2 m Wrapped d)) PCas d <> None).
-      { rewrite AR, WR, lookup_upd_same. discriminate. }
-      split; [split|split; [exact Hd | exact Hmono]].
-      - intros d'. rewrite AL, WL, Eloc, lookup_upd. destruct (pk_eqb PCas d' (PCas, d)) eqn:E.
-        + apply pk_eqb_eq in E as [_ ->]. intros _. exact Hd.
-        + intro Hl. apply Hmono. apply S1. exact Hl.
-      - intros d'. rewrite AM, WM, EM. intros [<-|Hin]; [exact Hd | apply Hmono, S2, Hin]. }
-    destruct r; try (destruct (w_set w1 m PCas d b) as [r2 w2] eqn:Es; exact (Hset w2 r2 eq_refl Hc)).
-    (* Exists answered true: the write is skipped *)
-    inversion Hc; subst w'. destruct (add_wmemo_spec w1 m d) as (AM & AL & AR).
-    assert (Hd : lookup (rem w) PCas d <> None).
-    { destruct (ET eq_refl) as [Hl|Hr]; [apply S1; exact Hl | exact Hr]. }
-    split; [split|split].
-    + intros d'. rewrite AL, AR, Eloc, ER. apply S1.
-    + intros d'. rewrite AM, AR, EM, ER. intros [<-|Hin]; [exact Hd | apply S2; exact Hin].
-    + rewrite AR, ER. exact Hd.
-    + intros d'. rewrite AR, ER. auto.
-Qed.
+(* ... and it holds for a new process, whatever the stores contain *)
+Lemma stored_in_remote_reset w m : stored_in_remote (reset_memo w m) m = true.
+Proof. unfold stored_in_remote. cbn [wstored reset_memo]. rewrite machine_eqb_refl. reflexivity. Qed.
 
 Section Dangling.
   Variable refs : bytes -> list key.
 
-  (* the claim for one publish: a new process on machine m writes the blobs, then the result that
-     references them; if every call returns ok, the remote holds the result and every referenced blob *)
+  (* the claim for one publish: the process on machine m writes the blobs, then the result that references
+     them; if every call returns ok, the remote holds the result and every referenced blob *)
   Definition no_dangling_at (w : world) (m : machine) (blobs : list (key * bytes)) (k : key) (r : bytes) : Prop :=
-    wmemo w m Wrapped = [] ->
     (forall d, In d (refs r) -> In d (map fst blobs)) ->
     forallb is_ok (fst (run_ops w (publish m blobs k r))) = true ->
     lookup (rem (snd (run_ops w (publish m blobs k r)))) PTarget k = Some r /\
     forall d, In d (refs r) -> lookup (rem (snd (run_ops w (publish m blobs k r)))) PCas d <> None.
 
   Lemma publish_ok m k r blobs : forall w,
-    sub_inv w m ->
+    stored_sound w m ->
     forallb is_ok (fst (run_ops w (publish m blobs k r))) = true ->
     lookup (rem (snd (run_ops w (publish m blobs k r)))) PTarget k = Some r /\
     (forall d, In d (map fst blobs) -> lookup (rem (snd (run_ops w (publish m blobs k r)))) PCas d <> None) /\
     (forall d, lookup (rem w) PCas d <> None -> lookup (rem (snd (run_ops w (publish m blobs k r)))) PCas d <> None).
   Proof.
     unfold publish. induction blobs as [|[d b] blobs IH]; intros w HS Hok.
-    - cbn [map app run_ops do_op b_set] in *.
-      pose proof (w_set_spec w m PTarget k r) as [_ WS].
-      destruct (w_set w m PTarget k r) as [x w1]. cbn [fst snd forallb] in *.
-      destruct x; try discriminate. destruct (WS eq_refl) as [_ WR]. rewrite WR.
-      split; [apply lookup_upd_same|]. split; [intros d []|].
-      intros d Hd. rewrite lookup_upd_other; [exact Hd | left; discriminate].
+    - cbn [map app run_ops do_op] in *.
+      pose proof (b_set_spec w m Wrapped PTarget k r) as (_ & Hm & Hset).
+      destruct (b_set w m Wrapped PTarget k r) as [x w1]. cbn [fst snd forallb] in *.
+      destruct x; try discriminate.
+      split; [apply Hset; reflexivity|]. split; [intros d []|].
+      intros d Hd. apply Hm, Hd.
     - cbn [map app run_ops do_op fst snd] in *.
-      destruct (cas_write w m Wrapped d b) as [x w1] eqn:Ec.
+      pose proof (cas_write_spec w m Wrapped d b) as [E1 T1].
+      destruct (cas_write w m Wrapped d b) as [x w1].
       destruct (run_ops w1 (map (fun e => Do m Wrapped (ACasWrite (fst e) (snd e))) blobs ++
                             [Do m Wrapped (ASet PTarget k r)])) as [xs w2] eqn:Er.
       cbn [fst snd forallb] in *. apply andb_true_iff in Hok as [Hx Hxs].
       destruct x; try discriminate.
-      destruct (cas_write_ok w m d b w1 HS Ec) as (HS1 & Hd1 & Hmono1).
+      pose proof (ext_sound _ _ m E1 HS) as HS1.
+      pose proof (T1 eq_refl eq_refl HS) as Hd1. destruct E1 as [Hmono1 _].
       specialize (IH w1 HS1). rewrite Er in IH. cbn [fst snd] in IH.
       destruct (IH Hxs) as (I1 & I2 & I3).
       split; [exact I1|]. split.
@@ -893,46 +1042,78 @@ Section Dangling.
       + intros d' Hd'. apply I3, Hmono1, Hd'.
   Qed.
 
-  Theorem no_dangling_guarded w m blobs k r :
-    local_sub_remote w m = true -> no_dangling_at w m blobs k r.
+  (* for every world (whatever the local caches and the remote hold), machine, blob list and fault lists *)
+  Theorem no_dangling w m blobs k r :
+    stored_in_remote w m = true -> no_dangling_at w m blobs k r.
   Proof.
-    intros Hg Hm Hrefs Hok.
-    destruct (publish_ok m k r blobs w (guard_sub_inv w m Hg Hm) Hok) as (I1 & I2 & _).
+    intros Hg Hrefs Hok. apply stored_in_remote_sound in Hg.
+    destruct (publish_ok m k r blobs w Hg Hok) as (I1 & I2 & _).
     split; [exact I1|]. intros d Hd. apply I2, Hrefs, Hd.
+  Qed.
+
+  (* a new process (empty memo) *)
+  Corollary no_dangling_new_process w m blobs k r :
+    wstored w m Wrapped = [] -> no_dangling_at w m blobs k r.
+  Proof. intro Hm. apply no_dangling. unfold stored_in_remote. rewrite Hm. reflexivity. Qed.
+
+  (* a process that started at any point of a delete-free history before the publish *)
+  Corollary no_dangling_after_history w m ops blobs k r :
+    forallb (fun o => negb (is_delete o)) ops = true ->
+    no_dangling_at (snd (run_ops (reset_memo w m) ops)) m blobs k r.
+  Proof.
+    intro Hnd. apply no_dangling. apply stored_in_remote_invariant; [exact Hnd | apply stored_in_remote_reset].
   Qed.
 End Dangling.
 
-(* the witness: the blob is in A's local cache (an earlier build without the remote), the remote is empty;
-   a result is "the digest it references" *)
+(* the history that used to leave a dangling reference: the blob is in A's local cache (an earlier build
+   without the remote), the remote is empty; a result is "the digest it references" *)
 Definition wit_d : key := ["d"]%char.
 Definition wit_x : bytes := ["x"]%char.
 Definition wit_k : key := ["k"]%char.
-Definition wit_world : world := mkW [((PCas, wit_d), wit_x)] [] [] (fun _ _ => []) [] [].
+Definition wit_world : world :=
+  mkW [((PCas, wit_d), wit_x)] [] [] (fun _ _ => []) (fun _ _ => []) [] [].
 Definition wit_refs (r : bytes) : list key := [r].
 
-Theorem no_dangling_refuted :
-  exists w m blobs k r, ~ no_dangling_at wit_refs w m blobs k r.
-Proof.
-  exists wit_world, MA, [(wit_d, wit_x)], wit_k, wit_d. intro Hc.
-  assert (P1 : wmemo wit_world MA Wrapped = []) by reflexivity.
-  assert (P2 : forall d, In d (wit_refs wit_d) -> In d (map fst [(wit_d, wit_x)])) by (intros d Hd; exact Hd).
-  assert (P3 : forallb is_ok (fst (run_ops wit_world (publish MA [(wit_d, wit_x)] wit_k wit_d))) = true)
-    by (vm_compute; reflexivity).
-  destruct (Hc P1 P2 P3) as [_ Hd]. apply (Hd wit_d (or_introl eq_refl)). vm_compute. reflexivity.
-Qed.
-
-(* the same history seen as a trace: every call returns ok, the remote ends with the result and no blob *)
-Lemma refuted_trace :
+(* ... now uploads the blob: both calls return ok and the remote ends with the result and the blob *)
+Lemma repaired_trace :
+  lookup (locA wit_world) PCas wit_d = Some wit_x /\ rem wit_world = [] /\
+  stored_in_remote wit_world MA = true /\
   map fst (run_trace wit_world (publish MA [(wit_d, wit_x)] wit_k wit_d)) = [ROk; ROk] /\
-  rem (snd (run_ops wit_world (publish MA [(wit_d, wit_x)] wit_k wit_d))) = [((PTarget, wit_k), wit_d)] /\
-  local_sub_remote wit_world MA = false.
+  rem (snd (run_ops wit_world (publish MA [(wit_d, wit_x)] wit_k wit_d)))
+  = [((PTarget, wit_k), wit_d); ((PCas, wit_d), wit_x)].
 Proof. vm_compute. repeat split. Qed.
 
-(* non-vacuity of the guarded statement and of the restore theorem: a cold machine A publishes, B restores *)
-Lemma guarded_nonvacuous :
-  let w0 := empty_world [] [] in
-  let out := run_ops w0 (publish MA [(wit_d, wit_x)] wit_k wit_d) in
-  local_sub_remote w0 MA = true /\ forallb is_ok (fst out) = true /\
+(* the guard cannot be dropped: a process that remembers a digest as stored which the remote does not hold
+   (it was deleted from the remote after the process had seen it) skips the upload *)
+Definition stale_world : world :=
+  mkW [((PCas, wit_d), wit_x)] [] [] (fun _ _ => [])
+      (fun m md => match m, md with MA, Wrapped => [wit_d] | _, _ => [] end) [] [].
+
+Theorem stored_guard_needed :
+  exists w m blobs k r, stored_in_remote w m = false /\ ~ no_dangling_at wit_refs w m blobs k r.
+Proof.
+  exists stale_world, MA, [(wit_d, wit_x)], wit_k, wit_d. split; [reflexivity|]. intro Hc.
+  assert (P2 : forall d, In d (wit_refs wit_d) -> In d (map fst [(wit_d, wit_x)])) by (intros d Hd; exact Hd).
+  assert (P3 : forallb is_ok (fst (run_ops stale_world (publish MA [(wit_d, wit_x)] wit_k wit_d))) = true)
+    by (vm_compute; reflexivity).
+  destruct (Hc P2 P3) as [_ Hd]. apply (Hd wit_d (or_introl eq_refl)). vm_compute. reflexivity.
+Qed.
+
+(* ... and such a memo only arises through a delete: the history  A writes the blob ; the blob is deleted from
+   the remote ; A (same process) publishes  *)
+Lemma stale_history :
+  let ops := [Do MA Wrapped (ACasWrite wit_d wit_x); Do MB Wrapped (ADelete PCas wit_d)] in
+  let w := snd (run_ops (empty_world [] []) ops) in
+  forallb (fun o => negb (is_delete o)) ops = false /\ stored_in_remote w MA = false /\
+  map fst (run_trace w (publish MA [(wit_d, wit_x)] wit_k wit_d)) = [ROk; ROk] /\
+  rem (snd (run_ops w (publish MA [(wit_d, wit_x)] wit_k wit_d))) = [((PTarget, wit_k), wit_d)].
+Proof. vm_compute. repeat split. Qed.
+
+(* non-vacuity of no_dangling and of the restore theorem on the formerly failing history: machine A, blob in
+   its local cache only, publishes; B restores with two hits *)
+Lemma no_dangling_nonvacuous :
+  let out := run_ops wit_world (publish MA [(wit_d, wit_x)] wit_k wit_d) in
+  stored_in_remote wit_world MA = true /\ forallb is_ok (fst out) = true /\
   remote_complete wit_refs (snd out) [wit_k] /\ locB (snd out) = [] /\
   fst (run_ops (snd out) (get_ops (restore_items wit_refs (snd out) [wit_k]))) = [RHit wit_d; RHit wit_x].
 Proof.
@@ -944,7 +1125,18 @@ Qed.
 
 (* a fault example: B's first remote Get fails, the second one is answered "not found" *)
 Lemma degrade_example :
-  let w := mkW [] [] [((PCas, wit_d), wit_x)] (fun _ _ => []) [FFail; FNotFound] [] in
+  let w := mkW [] [] [((PCas, wit_d), wit_x)] (fun _ _ => []) (fun _ _ => []) [FFail; FNotFound] [] in
   map fst (run_trace w [Do MB Wrapped (AGet PCas wit_d); Do MB Wrapped (AGet PCas wit_d); Do MB Wrapped (AGet PCas wit_d)])
   = [RErr; RMiss; RHit wit_x].
 Proof. vm_compute. reflexivity. Qed.
+
+(* the other way a blob becomes local-only: the remote Put of a tee'd Set fails after the local rename
+   succeeded (the write returns an error, the build fails); the next process publishes again and uploads it *)
+Lemma put_fault_then_retry :
+  let w0 := empty_world [FFail] [] in
+  let w1 := snd (run_ops w0 [Do MA Wrapped (ACasWrite wit_d wit_x)]) in
+  fst (run_ops w0 [Do MA Wrapped (ACasWrite wit_d wit_x)]) = [RErr] /\
+  lookup (locA w1) PCas wit_d = Some wit_x /\ rem w1 = [] /\
+  let out := run_ops (reset_memo w1 MA) (publish MA [(wit_d, wit_x)] wit_k wit_d) in
+  fst out = [ROk; ROk] /\ rem (snd out) = [((PTarget, wit_k), wit_d); ((PCas, wit_d), wit_x)].
+Proof. vm_compute. repeat split. Qed.
